@@ -38,6 +38,7 @@ var Profiles = map[string]Profile{
 	"deep":       {Name: "deep", StringSplice: 10, KeywordSplice: 10, ExtremeSplice: 10, WUntil: 4, CaptureOnly: 10, MinRules: 3, MaxRules: 7, Depth: 4, AltMin: 2, AltMax: 3, SeqMax: 3, WTerm: 14, WSeq: 22, WAlt: 12, WOpt: 6, WStar: 6, WPlus: 6, WAnd: 2, WNot: 2, WCap: 14, WRef: 18, WAct: 8, WPred: 1, WState: 0, Hostile: 10, Newline: 2},
 	"erry":       {Name: "erry", StringSplice: 10, KeywordSplice: 10, ExtremeSplice: 8, WUntil: 4, RefHeavy: true, MinRules: 4, MaxRules: 7, Depth: 3, AltMin: 2, AltMax: 3, SeqMax: 5, WTerm: 14, WSeq: 30, WAlt: 10, WOpt: 6, WStar: 5, WPlus: 6, WAnd: 2, WNot: 2, WCap: 14, WRef: 30, WAct: 2, WPred: 1, WState: 0, Hostile: 15, Newline: 20},
 	"actiony":    {Name: "actiony", StringSplice: 20, KeywordSplice: 10, ExtremeSplice: 12, WUntil: 8, ListSplice: 40, CaptureOnly: 10, MinRules: 2, MaxRules: 5, Depth: 3, AltMin: 2, AltMax: 3, SeqMax: 5, WTerm: 14, WSeq: 26, WAlt: 14, WOpt: 8, WStar: 8, WPlus: 8, WAnd: 5, WNot: 3, WCap: 16, WRef: 12, WAct: 24, WPred: 1, WState: 0, Hostile: 4, Newline: 2, SharedPrefix: 40},
+	"listy":      {Name: "listy", StringSplice: 20, KeywordSplice: 10, ExtremeSplice: 12, WUntil: 8, ListSplice: 100, MemoSplice: 40, CaptureOnly: 10, MinRules: 2, MaxRules: 5, Depth: 3, AltMin: 2, AltMax: 3, SeqMax: 5, WTerm: 14, WSeq: 26, WAlt: 14, WOpt: 8, WStar: 8, WPlus: 8, WAnd: 5, WNot: 3, WCap: 16, WRef: 12, WAct: 24, WPred: 1, WState: 0, Hostile: 4, Newline: 2, SharedPrefix: 40},
 	"liney":      {Name: "liney", StringSplice: 20, KeywordSplice: 10, ExtremeSplice: 10, WUntil: 6, MinRules: 2, MaxRules: 5, Depth: 3, AltMin: 2, AltMax: 4, SeqMax: 5, WTerm: 26, WSeq: 24, WAlt: 14, WOpt: 6, WStar: 6, WPlus: 6, WAnd: 3, WNot: 3, WCap: 6, WRef: 8, WAct: 3, WPred: 1, WState: 0, Hostile: 25, Newline: 25},
 }
 
@@ -760,6 +761,20 @@ func (s *genState) listSplice(g *Grammar) {
 		rec = Seq(Ref(k), Ref(0))
 	default:
 		rec = Seq(Ref(k), Un(KOpt, Seq(&Expr{K: KLit, Runes: []rune{','}}, Ref(0))))
+	}
+	if rapid.IntRange(0, 2).Draw(t, "lswrap") == 0 {
+		// the whole list is read, dropped because of what follows it, and read again from
+		// the table:  R0 <- L '!' / L '?' / L / (old) ;  L <- Item sep L / Item
+		l := k + 1
+		lrec := Seq(Ref(k), &Expr{K: KLit, Runes: []rune{','}}, Ref(l))
+		g.Rules = append(g.Rules, &Rule{Name: fmt.Sprintf("R%d", l), Body: &Expr{K: KAlt, Kids: []*Expr{lrec, Ref(k)}}})
+		lit := func(r rune) *Expr { return &Expr{K: KLit, Runes: []rune{r}} }
+		g.Rules[0].Body = &Expr{K: KAlt, Kids: []*Expr{Seq(Ref(l), lit('!')), Seq(Ref(l), lit('?')), Ref(l), g.Rules[0].Body}}
+		s.n = len(g.Rules)
+		s.ruleMust = append(s.ruleMust, true, true)
+		s.known = append(s.known, true, true)
+		s.rules = g.Rules
+		return
 	}
 	g.Rules[0].Body = &Expr{K: KAlt, Kids: []*Expr{rec, Ref(k), g.Rules[0].Body}}
 	s.n = len(g.Rules)
